@@ -9,7 +9,8 @@ SRC_FACTS = ["crypt_fn_secret", "crypt_key_ciphertext", "crypt_new_key", "ast_fn
              "envelope_magic", "envelope_version", "envelope_min_len"]
 COQ_SAMPLE = 40
 BATCH = 200
-RULE = ("regression corpus ($$ / $${x} / ${x} texts, interpolated inner key, non-secret shapes); spelling family: "
+RULE = ("line-break family (secrets in block / flow position and non-secret block scalars whose text contains LF and "
+        "starts with LF, U+2028, U+2029, tab; controls U+0085, U+FEFF); regression corpus ($$ / $${x} / ${x} texts, interpolated inner key, non-secret shapes); spelling family: "
         "every spelling of the key fn::secret (plain, single, double, \\x / \\u / fully escaped double-quoted, !!str "
         "tagged) x every spelling of the text scalar (the same plus literal, folded) and of the key ciphertext x block / "
         "flow / flow-in-provider-input, one secret per document (no raw bytes `fn::secret` when escaped); exhaustive small "
@@ -85,6 +86,13 @@ def gen(rng, tier):
     # block and flow): same decoded key = same secret, whatever bytes the text contains
     for j, (form, text) in enumerate(G.spelled_documents(0x6B, 1, thorough)):
         add(text, 0x6B, 1, "spelling-" + form)
+
+    # secrets whose text starts with a line break character (LF, U+2028, U+2029; controls U+0085, U+FEFF, tab) and
+    # contains a line feed, in block and flow position: decrypt(encrypt(doc)) must restore them
+    for form, text in G.break_secret_documents(0x2C, 1):
+        add(text, 0x2C, 1, "breaks-" + form)
+    for text in G.break_scalar_documents():
+        add(text, 0x2C, 0, "breaks-scalar")
 
     # ciphertext lengths 0..40 exactly
     for n in range(0, 41):
